@@ -11,7 +11,7 @@ grep '^fixed:' KNOWN_FINDINGS.txt | while read -r _ prop hash rest; do
   git -C /repo worktree add --detach $wt HEAD -q || continue
   if (cd $wt && git revert --no-commit $hash >/dev/null 2>&1 && go build ./... 2>/dev/null); then
     ./verif check $p --no-evidence --repo $wt > /tmp/revert.$$.log 2>&1; rc=$?
-    sig=$(grep -m1 'sig=' /tmp/revert.$$.log | cut -c1-150)
+    sig=$(grep -m1 '^  sig=' /tmp/revert.$$.log | cut -c1-150)
     if [ $rc = 1 ]; then echo "$hash $p: VIOLATION returns  $sig" >> $out; else echo "$hash $p: NOT DETECTED (rc=$rc) ${rest:0:80}" >> $out; fi
   else
     echo "$hash $p: revert does not apply cleanly (later repair on the same lines) ${rest:0:60}" >> $out
